@@ -1,0 +1,11 @@
+// SPDX-License-Identifier: GPL-3.0-or-later
+
+//go:build !verif
+// +build !verif
+
+// Package verifhook provides named hook points for external runtime
+// verification. Without the "verif" build tag every hook is an empty function.
+package verifhook
+
+// At marks a hook point. It does nothing unless built with the verif tag.
+func At(name string) {}
